@@ -320,10 +320,15 @@ def run(run: Run):
     from props import C12
     C12.stage1(run)
     imports_of_types_module(run)
+    # the collision set of a file (which decides the aliases of the import lines and of every reference): fields of nested messages count too
+    C12.proto_names(run)
     tables(run)
     field_region(run)
     enum_region(run)
     manifest_region(run)
+    run.native_standin("props.C02_native", "subpackage_names",
+                       "BOUNDED: a types-only sub-package file: runtime full names == input descriptors' (file package, not API package), Any round trip",
+                       group="native.C02:subpackage-names")
     run.native_standin("props.C02_native", "scenarios",
                        "descriptor sets (all scalar types, enums incl. aliases, repeated, proto3 optional, oneofs, maps over all 12 key types, nesting depth 4, "
                        "recursion, forward / cross-file / dependency-package references, reserved words) -> generated classes: runtime descriptor view == input view, "
